@@ -21,6 +21,7 @@ def run(prog, run):
     r4(prog, run)
     r5(prog, run)
     r6(prog, run)
+    r7(prog, run)
 
 
 def r1(prog, run):
@@ -237,6 +238,57 @@ def r3(prog, run):
                 run.ok(rid, f.loc(i), 'terminate(NoError) in checkData()')
             else:
                 run.violation(rid, 'incoming-success#%s' % top.qname, f.loc(i), '%s reports an incoming transfer as successful without the size/hash check' % top.display())
+
+
+def r7(prog, run):
+    rid = run.rule('C19.R7', 'the (sender, session id) lookup returns a job only if both the sender JID and the session id match; and an error reply to a data block ends the '
+                             'outgoing job with an error: the first terminate() on that path (helpers included) is not NoError', floor=3)
+    lk = prog.fn('QXmppTransferManagerPrivate::getIncomingJobBySid')
+    for pidx, what in ((0, 'sender JID'), (1, 'session id')):
+        run.instance(rid)
+
+        def custom(f, nid, st, pidx=pidx):
+            bo = f.binop(nid)
+            if bo and bo[0] in ('==', '!='):
+                for x in (bo[1], bo[2]):
+                    m = f.nodes[f.skip(x)]
+                    if m['k'] == 'var' and m.get('vk') == 'param' and m.get('pidx') == pidx and f.id == lk.id:
+                        return (bo[0] == '!=',)
+            return None
+        ev = cfgx.Evaluator(lk, {}, custom=custom)
+        reach = cfgx.reach_with_paths(lk, lambda f, c, st: ev.ev(c, st))
+        bad = None
+        for i, n in lk.returns():
+            pos = lk.pos(i)
+            if pos and pos[0] in reach and 'e' in n and lk.const_value(n['e']) != ('null', None):
+                v = lk.nodes[lk.skip(n['e'])]
+                if not (v['k'] in ('cast', 'construct') and lk.const_value(v.get('e', v.get('args', [None])[0])) == ('null', None)):
+                    bad = (i, reach[pos[0]])
+        if bad:
+            run.violation(rid, 'getIncomingJobBySid#ignores-%s' % what.split(' ')[0], lk.loc(bad[0]),
+                          'the lookup can return a job although the %s of the request differs from the job\'s: a block (or open/close) from another entity is applied to this '
+                          'transfer' % what, cfgx.describe_path(lk, bad[1]))
+        else:
+            run.ok(rid, lk.loc(), 'no job is returned when the %s differs' % what)
+    rsp = prog.fn(TM + '::ibbResponseReceived')
+    run.instance(rid)
+
+    def event_of(f, nid):
+        n = f.nodes[nid]
+        if n['k'] == 'call' and f.cname(n).endswith('::terminate') and n.get('args'):
+            v = f.const_value(n['args'][0])
+            return ('terminate', v[1].split('::')[-1] if v else '?')
+        return None
+    seqs = cfgx.effect_sequences(prog, rsp, event_of, bindings={'QXmppIq::type': ('enum', 'QXmppIq::Error')})
+    firsts = {q[0][1] for q in seqs if q and q[0] != '?'} | {'?' for q in seqs if q and q[0] == '?'}
+    if not any(q for q in seqs):
+        run.violation(rid, 'ibbResponseReceived#error-reply#not-terminated', rsp.loc(), 'an error reply to a data block does not end the outgoing job')
+    elif 'NoError' in firsts or '?' in firsts:
+        run.violation(rid, 'ibbResponseReceived#error-reply#reported-success', rsp.loc(),
+                      'after an error reply to a data block the first terminate() on some path is %s (terminate() honours only its first call): the sender reports success although '
+                      'the receiver refused a block' % sorted(firsts))
+    else:
+        run.ok(rid, rsp.loc(), 'an error reply ends the outgoing job with %s' % sorted(firsts))
 
 
 def r4(prog, run):
